@@ -64,6 +64,7 @@ def valid_layout(al):
 
 
 def scripts(rnd, quick):
+    yield [tmacro_line(0), 'get 0', 'get 51', tmacro_line(1), 'get 7', 'bread 0 4']          # a table written with the public construction macros
     als = area_layouts(rnd, quick)
     rls = reg_layouts(rnd, quick)
     good = [al for al in als if al and valid_layout(al)]
